@@ -607,9 +607,10 @@ def comb(rowsets, coefs):
 
 
 # tolerance constants of the evolution check (see module docstring / report for the measured margins)
-K_INT = {"ias15": 1e-9, "bs": None, "whfast": 1e-9, "leapfrog": 1e-9}     # relative accuracy of the variation itself
-DELTA_SHADOW = 1e-14      # accuracy of one shadow state per orbit, relative to the state scale
+K_INT = {"ias15": 3e-10, "bs": None, "whfast": 1e-9, "leapfrog": 1e-9}     # relative accuracy of the variation itself
+DELTA_SHADOW = 3e-14      # accuracy of one shadow state per orbit, relative to the state scale
 K_RND_EV = 16.0
+DELTA_VAR = 2e-13         # accuracy of a first-order IAS15 variation (shadow of the order-2 check), measured <= 3.6e-11 at 30 orbits
 K_BASE = 64.0
 
 
@@ -678,6 +679,11 @@ def run_evolve(case, ctx):
     if dpar == "e":
         h = min(h, base.el(dj, "cl")["e"] / 10.0)
 
+    # keep the outermost shadow (4h) within ~1% of the orbit scale of the base trajectory at T.  The growth is read
+    # from the variation itself: this only selects a step, the error of the quotient is still measured below.
+    grow = snorm(var_state(sim, va if order == 1 else vb, nreal), base)
+    if grow == grow and grow > 0.0:
+        h = min(h, 0.01 / (4.0 * grow))
     if order == 1:
         V = var_state(sim, va, nreal)
         pts = {k: shadow_real([(j, p, k * h)]) for k in (-4, -2, -1, 1, 2, 4)}
@@ -705,7 +711,7 @@ def run_evolve(case, ctx):
         V1 = var_state(sim, va, nreal)
         V1b = var_state(sim, vb, nreal)
         state_mag = snorm(V1, base)
-        delta = max(DELTA_SHADOW * (1.0 + norb) ** 1.5, 1e-12) * state_mag
+        delta = DELTA_VAR * (1.0 + norb) ** 1.5 * state_mag
     # the constructors see the elements REBOUND recovers from the Cartesian particle; the shadows are built
     # around map(recovered elements), which differs from the base particle by the accuracy of the inverse map
     # (~1e-8 in the angles when omega, f or Omega are within ~1e-8 of 0 or pi: acos).  The variation is then the
@@ -725,11 +731,26 @@ def run_evolve(case, ctx):
         # measured: |V_bs - V_ias15| <= 700 * eps_bs * (1+norbits) * |V| (round-off limited at eps_bs = 1e-12)
         kint = (2e3 * case["bs_eps"] + 3e-9) * (1.0 + norb)
     else:
-        kint = K_INT[integ]
+        kint = K_INT[integ] * (1.0 + norb)
     if order == 2:
         # each shadow initialises its first-order variation from elements recovered with that accuracy
         delta += max(dbase, dsh[0]) * wind * state_mag
         ctx.stat_max("delta_shadow", dsh[0])
+    # regime guard: the difference quotient is meaningful only while the shadows stay in the linear neighbourhood
+    # of the base trajectory (a chaotic / numerically unstable base, e.g. LEAPFROG through a deep pericentre, is
+    # outside the 'regular regime' of the property) and while it has converged
+    Dmag = snorm(Dh, base)
+    disp = 4.0 * h * (Dmag if order == 1 else snorm(V1b, base))     # displacement of the outermost shadow at T
+    if disp > 0.05:
+        ctx.skip("shadows leave the linear regime (displaced by >5% of the orbit scale): not the regular regime")
+        if hasattr(ctx, "trace"):
+            ctx.trace.append({"skip": 1, "case": case, "Dmag": Dmag, "Efd": Efd, "h": h, "V": snorm(V, base)})
+        return
+    if Efd > 0.05 * max(Dmag, snorm(V, base)):
+        ctx.skip("difference quotient not converged (|D(h)-D(2h)| > 5%): not the regular regime")
+        if hasattr(ctx, "trace"):
+            ctx.trace.append({"skip": 2, "case": case, "Dmag": Dmag, "Efd": Efd, "h": h, "V": snorm(V, base)})
+        return
     # natural size of the variation (R can be accidentally small)
     if order == 1:
         Rn = max(R, snorm(real_state(sim, nreal), base) / sc)
